@@ -396,11 +396,7 @@ def _call(case, net):
     body = make_body(case.get("body"))
     if entry == "conn":
         conn = HTTPConnection(HOST, 80)
-        try:
-            conn.request(case["method"], case["url"], body=body, headers=hd, chunked=bool(case.get("chunked")))
-        finally:
-            conn.close()
-        return None
+        return conn, lambda: conn.request(case["method"], case["url"], body=body, headers=hd, chunked=bool(case.get("chunked")))
     if entry in ("pool_rel", "pool_abs"):
         pool = HTTPConnectionPool(HOST, 80, maxsize=1)
         return pool, lambda: pool.urlopen(case["method"], case["url"], body=body, headers=hd, retries=False,
@@ -434,7 +430,7 @@ def execute(case):
             if r is not None:
                 owner, thunk = r
                 resp = thunk()
-                status = resp.status
+                status = resp.status if resp is not None else None  # HTTPConnection.request returns nothing
         except SimStall as e:
             stall = str(e)
         except HarnessError:
@@ -447,6 +443,11 @@ def execute(case):
             try:
                 if case["entry"] == "pm":
                     resp = owner.request("GET", BASE + "/follow")
+                elif case["entry"] == "conn":
+                    # the documented way to re-use a connection object after a failure: close(), then request()
+                    owner.close()
+                    owner.request("GET", "/follow")
+                    resp = owner.getresponse()
                 else:
                     resp = owner.urlopen("GET", "/follow", retries=False)
                 followup = {"status": resp.status, "raised": None}
@@ -456,7 +457,7 @@ def execute(case):
                 followup = {"status": None, "raised": type(e).__name__, "msg": str(e)[:200]}
         if owner is not None:
             try:
-                owner.clear() if case["entry"] == "pm" else owner.close()
+                owner.clear() if case["entry"] == "pm" else owner.close()  # pool.close() / conn.close()
             except Exception:  # noqa: BLE001
                 pass
     return {
